@@ -300,3 +300,61 @@ package keeper
 //@ loop #1
 //@   invariant 0 <= it_idx && it_idx <= it_n && len(ret) == it_idx
 //@   invariant forall(j, 0, it_idx, ret[j] == get(ctx, "delegation", cat(pendPfx(), it_seq[j])))
+
+// ---------------------------------------------------------------------------------------------
+// Completion of undelegations at the end of the block (C01 matched transfer, C03 release exactly once / re-queue
+// with all indexes moved, C09 per-record isolation)
+
+//@ define recKeyOf(r)    = urKey(r.OperatorAddr, r.BlockNumber, r.LzTxNonce, r.TxHash)
+//@ define recRawKeyOf(r) = urRawKey(r.OperatorAddr, r.BlockNumber, r.LzTxNonce, r.TxHash)
+
+//@ func (*Keeper).DeleteUndelegationRecord
+//@   requires record != nil
+//@   modifies get(ctx, "delegation", recKeyOf(record)), get(ctx, "delegation", stIdxKey(record.StakerID, record.AssetID, record.LzTxNonce)),
+//@            get(ctx, "delegation", pendIdxKey(record.CompleteBlockNumber, record.LzTxNonce))
+//@   ensures[C03.dur.spec] err == nil && state(ctx) == put(put(put(old(state(ctx)), "delegation", recKeyOf(record), nil), "delegation",
+//@        stIdxKey(record.StakerID, record.AssetID, record.LzTxNonce), nil), "delegation", pendIdxKey(record.CompleteBlockNumber, record.LzTxNonce), nil)
+
+// The records due at a height: non-nil, pairwise distinct objects (each decoded from the store into a fresh object)
+//@ func (*Keeper).GetPendingUndelegationRecords
+//@   flag assumed
+//@   ensures err == nil ==> forall(j, 0, len(records), records[j] != nil) &&
+//@        forall(i, 0, len(records), forall(j, 0, len(records), i != j ==> records[i] != records[j]))
+
+//@ define ebOpStr(r)  = accstr(bech32addr(old(r.OperatorAddr)))
+//@ define ebReleased(c, r) = old(r.AssetID) != g("x/assets/types.ExocoreAssetID") && old(holdCount(c, recRawKeyOf(r))) == 0 &&
+//@      state(c) == put(put(put(put(put(put(old(state(c)),
+//@           "delegation", delKey(old(r.StakerID), old(r.AssetID), old(r.OperatorAddr)), get(c, "delegation", delKey(old(r.StakerID), old(r.AssetID), old(r.OperatorAddr)))),
+//@           "assets", stakerKey(old(r.StakerID), old(r.AssetID)), get(c, "assets", stakerKey(old(r.StakerID), old(r.AssetID)))),
+//@           "assets", opKey(ebOpStr(r), old(r.AssetID)), get(c, "assets", opKey(ebOpStr(r), old(r.AssetID)))),
+//@           "delegation", old(recKeyOf(r)), nil),
+//@           "delegation", stIdxKey(old(r.StakerID), old(r.AssetID), old(r.LzTxNonce)), nil),
+//@           "delegation", pendIdxKey(old(r.CompleteBlockNumber), old(r.LzTxNonce)), nil) &&
+//@      delWait(c, old(r.StakerID), old(r.AssetID), old(r.OperatorAddr)) == old(delWait(c, r.StakerID, r.AssetID, r.OperatorAddr)) - old(val(r.Amount)) &&
+//@      stPending(c, old(r.StakerID), old(r.AssetID)) == old(stPending(c, r.StakerID, r.AssetID)) - old(val(r.Amount)) &&
+//@      stWithdrawable(c, old(r.StakerID), old(r.AssetID)) == old(stWithdrawable(c, r.StakerID, r.AssetID)) + old(ite(isnil(r.ActualCompletedAmount), 0, val(r.ActualCompletedAmount))) &&
+//@      stDeposit(c, old(r.StakerID), old(r.AssetID)) == old(stDeposit(c, r.StakerID, r.AssetID)) &&
+//@      opPending(c, ebOpStr(r), old(r.AssetID)) == old(opPending(c, accstr(bech32addr(r.OperatorAddr)), r.AssetID)) - old(val(r.Amount)) &&
+//@      opTotal(c, ebOpStr(r), old(r.AssetID)) == old(opTotal(c, accstr(bech32addr(r.OperatorAddr)), r.AssetID))
+//@ define ebReleasedNative(c, r) = old(r.AssetID) == g("x/assets/types.ExocoreAssetID") && old(holdCount(c, recRawKeyOf(r))) == 0 &&
+//@      get(c, "delegation", old(recKeyOf(r))) == nil && store(c, "assets") == sput(old(store(c, "assets")), opKey(ebOpStr(r), old(r.AssetID)), get(c, "assets", opKey(ebOpStr(r), old(r.AssetID)))) &&
+//@      opPending(c, ebOpStr(r), old(r.AssetID)) == old(opPending(c, accstr(bech32addr(r.OperatorAddr)), r.AssetID)) - old(val(r.Amount))
+//@ define ebRequeued(c, r) = old(holdCount(c, recRawKeyOf(r))) > 0 &&
+//@      state(c) == putstore(old(state(c)), "delegation", sput(sput(sput(sput(old(store(c, "delegation")),
+//@           pendIdxKey(old(r.CompleteBlockNumber), old(r.LzTxNonce)), nil),
+//@           old(recKeyOf(r)), get(c, "delegation", old(recKeyOf(r)))),
+//@           stIdxKey(old(r.StakerID), old(r.AssetID), old(r.LzTxNonce)), old(recRawKeyOf(r))),
+//@           pendIdxKey(c.height + 1, old(r.LzTxNonce)), old(recRawKeyOf(r)))) &&
+//@      unm["x/delegation/types.UndelegationRecord"](get(c, "delegation", old(recKeyOf(r)))).CompleteBlockNumber == c.height + 1
+
+//@ func (*Keeper).EndBlock
+//@   requires originalCtx.height >= 0 && originalCtx.height < 9223372036854775806
+//@   modifies state(originalCtx), heap["x/delegation/types.UndelegationRecord"], trace
+//@   ensures[C03.eb.noupdates] len(r0) == 0
+//@ loop #1
+//@   invariant -1 <= rangeindex && rangeindex < len(res_GetPendingUndelegationRecords_0)
+//@   invariant forall(j, 0, len(res_GetPendingUndelegationRecords_0), res_GetPendingUndelegationRecords_0[j] != nil)
+//@   step[C09.eb.isolated] state(originalCtx) == old(state(originalCtx)) ||
+//@        ebReleased(originalCtx, res_GetPendingUndelegationRecords_0[rangeindex]) ||
+//@        ebReleasedNative(originalCtx, res_GetPendingUndelegationRecords_0[rangeindex]) ||
+//@        ebRequeued(originalCtx, res_GetPendingUndelegationRecords_0[rangeindex])
